@@ -18,7 +18,7 @@ PROP = "C13"
 LEVEL = "fault_enumeration"
 SHARDS = {"quick": 16, "thorough": 16}
 THOROUGH_DEPTH = 6      # thorough tier = this many times the base thorough budget (VERIF_DEPTH overrides)
-TIME_CAP = {"quick": 250, "thorough": 2400}
+TIME_CAP = {"quick": 900, "thorough": 2400}
 DEG = np.pi / 180.0
 WINDOW = 12          # faults are enumerated inside the first WINDOW samples
 DEAD_RECKONERS = ("Madgwick", "Mahony", "AQUA")
